@@ -75,6 +75,19 @@ class Run:
             self.violated(rule, func, node, msg_bad, kind=kind, construct=construct, **facts)
         return cond
 
+    def by_diff(self, rule, func, node, got, want, what, kind, **facts):
+        """Compare a term with its specification: equal -> HOLDS, definite difference ->
+        VIOLATED, structural difference (an idiom the normaliser cannot relate) -> UNDECIDED."""
+        from . import termdiff
+        d = termdiff.diff(termdiff.lift(got), termdiff.lift(want)) if got is not None else ("structural", "", got, want)
+        if d[0] == "equal":
+            self.holds(rule, func, node, what, **facts)
+        elif d[0] == "definite":
+            self.violated(rule, func, node, "%s: %s" % (what, termdiff.describe(d)), kind=kind, **facts)
+        else:
+            self.undecided(rule, func, node, "%s: %s" % (what, termdiff.describe(d)), kind=kind + "-structure", **facts)
+        return d[0]
+
     def floor(self, rule, n):
         self.floors[rule] = n
 
